@@ -218,6 +218,13 @@ def mutable_arg_cases(only=None):
         ("expand_dims-list", (2, 3), lambda t, a: (L([0]),), lambda t, m: mg.expand_dims(t, tuple(m[0])), lambda a, m: np.expand_dims(a, tuple(m[0])), lambda m: m[0].__setitem__(0, 2)),
         ("squeeze-axis-list", (1, 3, 1), lambda t, a: (L([0]),), lambda t, m: mg.squeeze(t, tuple(m[0])), lambda a, m: np.squeeze(a, tuple(m[0])), lambda m: m[0].__setitem__(0, 2)),
         ("getitem-tuple-of-slices", (6,), lambda t, a: (L([slice(1, 4)]),), lambda t, m: t[tuple(m[0])], lambda a, m: a[tuple(m[0])], lambda m: m[0].__setitem__(0, slice(0, 2))),
+        # basic indices that hold integer-valued 0-d tensors / arrays (NumPy uses their __index__): still views
+        ("getitem-slice-tensor-start", (6,), lambda t, a: (mg.tensor(1),), lambda t, m: t[m[0]:4], lambda a, m: a[m[0]:4], lambda m: m[0].__iadd__(2)),
+        ("getitem-slice-tensor-stop-step", (6,), lambda t, a: (mg.tensor(5), mg.tensor(1)), lambda t, m: t[0:m[0]:m[1]], lambda a, m: a[0:m[0]:m[1]], lambda m: (m[0].__isub__(2), m[1].__iadd__(1))),
+        ("getitem-slice-0d-array-start", (6,), lambda t, a: (np.array(1),), lambda t, m: t[m[0]:4], lambda a, m: a[m[0]:4], lambda m: m[0].__iadd__(2)),
+        ("getitem-tuple-slice-tensor-bound", (2, 3), lambda t, a: (mg.tensor(0),), lambda t, m: t[:, m[0]:2], lambda a, m: a[:, m[0]:2], lambda m: m[0].__iadd__(1)),
+        ("getitem-0d-tensor-index", (2, 3), lambda t, a: (mg.tensor(0),), lambda t, m: t[m[0]], lambda a, m: a[m[0]], lambda m: m[0].__iadd__(1)),
+        ("getitem-tuple-0d-tensor-index", (2, 3), lambda t, a: (mg.tensor(0),), lambda t, m: t[:, m[0]], lambda a, m: a[:, m[0]], lambda m: m[0].__iadd__(2)),
     ]
     for name, shape, mkargs, f, g, mutate in cases:
         if only is not None and name != only:
@@ -399,20 +406,36 @@ def run_shape_steps(steps):
     for stp in steps:
         k, i = stp[0], stp[1]
         t, arr = fam_t[i], fam_a[i]
-        # NumPy first: a statement NumPy itself refuses is not part of the property's domain
+        # NumPy first: a statement NumPy itself refuses must be refused as well, and leave the family as it is
+        np_refuses = False
         try:
             if k == "view":
                 idx = slice(*stp[2]) if isinstance(stp[2], list) else (None if stp[2] == "None" else stp[2])
-                new_a = arr[idx]
+                new_a = arr.T if stp[2] == "T" else arr[idx]
             elif k == "shape":
                 arr.shape = tuple(stp[2])
             else:
                 arr *= stp[2]
         except Exception:
-            return None, "invalid"
+            if k != "shape":
+                return None, "invalid"
+            np_refuses = True
+        if np_refuses:
+            log.append(f"v{i}.shape = {tuple(stp[2])}")
+            try:
+                t.shape = tuple(stp[2])
+            except Exception:
+                pass
+            else:
+                return "accepted-rejected-shape", f"`{'; '.join(log)}`: NumPy refuses the last statement, MyGrad accepted it"
+            log[-1] += "  (refused)"
+            for j, (tt, aa) in enumerate(zip(fam_t, fam_a)):
+                if tt.shape != aa.shape or not np.array_equal(tt.data, aa):
+                    return "stale-view", f"after `{'; '.join(log)}` v{j} = {tt.data.tolist()} but NumPy gives {aa.tolist()}"
+            continue
         try:
             if k == "view":
-                fam_a.append(new_a); fam_t.append(t[idx]); log.append(f"v{len(fam_t)-1} = v{i}[{idx}]")
+                fam_a.append(new_a); fam_t.append(t.T if stp[2] == "T" else t[idx]); log.append(f"v{len(fam_t)-1} = v{i}[{idx}]" if stp[2] != "T" else f"v{len(fam_t)-1} = v{i}.T")
             elif k == "shape":
                 log.append(f"v{i}.shape = {tuple(stp[2])}")
                 t.shape = tuple(stp[2])
@@ -427,15 +450,30 @@ def run_shape_steps(steps):
     return None, ""
 
 
+# sequences run under every seed: `.shape =` on memory that cannot take the shape without a copy (NumPy refuses) and
+# on strided memory that can
+PINNED_SHAPE_SEQS = [
+    [["shape", 0, [3, 4]], ["view", 0, "T"], ["shape", 1, [12]], ["inplace", 0, 2.0]],
+    [["shape", 0, [3, 4]], ["view", 0, "T"], ["shape", 1, [2, 6]], ["inplace", 1, 3.0]],
+    [["shape", 0, [2, 6]], ["view", 0, "T"], ["shape", 1, [3, 4]], ["inplace", 0, 2.0]],
+    [["shape", 0, [3, 4]], ["view", 0, [None, None, 2]], ["shape", 1, [8]], ["inplace", 1, -1.0]],
+    [["view", 0, [None, None, 2]], ["shape", 1, [2, 3]], ["inplace", 0, 2.0]],
+    [["view", 0, [None, None, -1]], ["shape", 1, [3, 4]], ["view", 1, "T"], ["shape", 2, [12]], ["inplace", 0, 2.0]],
+    [["shape", 0, [2, 2, 3]], ["view", 0, "T"], ["shape", 1, [6, 2]], ["shape", 1, [3, 4]], ["inplace", 1, 2.0]],
+]
+
+
 def shape_setter_cases(ctx):
     """`.shape = …` on members of a view family, followed by in-place updates, vs the same statements on ndarrays"""
     rng = ctx.rng("shape")
     best = {}
-    for c in range(ctx.n(150, 2000)):
+    for c in range(-len(PINNED_SHAPE_SEQS), ctx.n(150, 2000)):
         steps = []
+        if c < 0:
+            steps = [list(x) for x in PINNED_SHAPE_SEQS[c]]
         shapes = [(12,)]  # shape of each family member, tracked on ndarrays
         arrs = [np.arange(12.0)]
-        for step in range(rng.randint(2, 6)):
+        for step in range(rng.randint(2, 6) if c >= 0 else 0):
             k = rng.choice(["view", "view", "shape", "inplace", "inplace"])
             i = rng.randrange(len(arrs))
             arr = arrs[i]
@@ -443,6 +481,8 @@ def shape_setter_cases(ctx):
                 if arr.ndim == 1 and arr.size > 1:
                     sl = rng.choice([[None, None, 2], [1, None, None], [None, None, -1]])
                     steps.append(["view", i, sl]); arrs.append(arr[slice(*sl)])
+                elif arr.ndim >= 2 and rng.random() < 0.5:
+                    steps.append(["view", i, "T"]); arrs.append(arr.T)
                 elif arr.ndim >= 2:
                     steps.append(["view", i, 0]); arrs.append(arr[0])
                 else:
@@ -456,7 +496,7 @@ def shape_setter_cases(ctx):
                 try:
                     arr.shape = s
                 except Exception:
-                    continue  # NumPy refuses: not a legal statement
+                    pass  # NumPy refuses (memory that cannot take the shape without a copy): so must MyGrad
                 steps.append(["shape", i, list(s)])
             else:
                 val = float(rng.randint(-3, 3))
